@@ -280,15 +280,19 @@ def _delete(x, path):
 def shrink_case(mod, case, key, max_evals):
     """Structural minimisation: keep a smaller case while the same bucket still fires. Deletions go level by level
     (whole cells before their fields), siblings in reverse order so indexes stay valid; then strings are shortened
-    and containers emptied. Bounded by evaluations, not time."""
+    and containers emptied. Bounded by evaluations (and by a per-bucket wall-clock cap for slow cases)."""
     keys = getattr(mod, "SHRINK_KEYS", None)
     if not keys:
         return case, 0
     valid = getattr(mod, "valid", lambda c: True)
     state = {"evals": 0}
+    # a second bound for cases that are expensive to evaluate (a diff of two 1000-item lists): minimisation stops after this many
+    # seconds per bucket and the case found so far is the replay - a less minimal reproduction, never a different verdict
+    deadline = time.time() + float(os.environ.get("VERIF_SHRINK_SECONDS", "60"))
 
     def fires(c):
-        if state["evals"] >= max_evals:
+        if state["evals"] >= max_evals or time.time() > deadline:
+            state["evals"] = max(state["evals"], max_evals)
             return False
         state["evals"] += 1
         try:
